@@ -399,6 +399,17 @@ def check(rep, proof):
             if (fi + gi) % 2:
                 st_.append([2, 4, 1])
             cases.append(dict(stack=st_, D=2, kind="nopow"))
+    # like terms that share a constant-VALUED factor which is not a terminal: k*t + m*k*t with k = sin(2), exp(1), cos(3), |-2|
+    for f, a in ((6, 2), (8, 1), (7, 3), (11, -2), (12, 5)):
+        for m_, comb in ((3, 2), (5, 3), (1, 2), (-2, 2)):
+            for t_rows in ([[0, 0, 0]], [[0, 0, 0], [0, 1, 1], [4, 2, 3]]):
+                st_ = [[-1, a, a], [f, 0, 0]] + [list(r_) for r_ in t_rows]
+                t_i = len(st_) - 1
+                st_.append([4, 1, t_i])                    # k*t
+                kt = len(st_) - 1
+                st_ += [[-1, m_, m_], [4, len(st_), kt]]    # m*(k*t)
+                st_.append([comb, kt, len(st_) - 1])
+                cases.append(dict(stack=st_, D=2, kind="nopow"))
     cases.append(dict(stack=[[0, 0, 0], [-1, 3, 3], [13, 0, 1]], D=1, kind="all"))
     cases.append(dict(stack=[[0, 0, 0], [-1, 1, 1], [13, 0, 1]], D=1, kind="all"))
     rc, res, out, wall = vlib.run_impl("c03", dict(cases=cases, seed=rep.seed), timeout=3400)
